@@ -135,6 +135,64 @@ theorem each_exactly_once (cap tg : Nat) (ps : List PIn) (hno : NoOverflow (pend
     ((batches cap tg ps).map (·.members)).flatten.count x = (pending tg ps).count x := by
   rw [(batches_P14 cap tg ps hno).1]
 
+theorem pendingFrom_idx (tg : Nat) (k : Nat) (ps : List PIn) : ∀ x ∈ pendingFrom tg k ps, k ≤ x.1 := by
+  induction ps generalizing k with
+  | nil => simp [pendingFrom]
+  | cons p ps ih =>
+    intro x hx
+    simp only [pendingFrom] at hx
+    split at hx
+    · have := ih (k+1) x hx; omega
+    · rcases List.mem_cons.1 hx with rfl | hx
+      · exact Nat.le_refl _
+      · have := ih (k+1) x hx; omega
+
+/-- the pending proposals are listed once each: their positions in the delivery are pairwise distinct -/
+theorem pending_idx_nodup (tg : Nat) (ps : List PIn) : ((pending tg ps).map (·.1)).Nodup := by
+  unfold pending; generalize 0 = k
+  induction ps generalizing k with
+  | nil => simp [pendingFrom]
+  | cons p ps ih =>
+    simp only [pendingFrom]
+    split
+    · exact ih _
+    · simp only [List.map_cons, List.nodup_cons]
+      refine ⟨?_, ih _⟩
+      intro hm
+      obtain ⟨x, hx, hxe⟩ := List.mem_map.1 hm
+      have := pendingFrom_idx tg (k+1) ps x hx
+      omega
+
+/-- **each pending proposal is in exactly one batch, exactly once** (by position in the delivery) -/
+theorem pending_position_exactly_once (cap tg : Nat) (ps : List PIn) (hno : NoOverflow (pending tg ps)) (i : Nat)
+    (hi : i ∈ (pending tg ps).map (·.1)) :
+    ((((batches cap tg ps).map (·.members)).flatten).map (·.1)).count i = 1 := by
+  rw [(batches_P14 cap tg ps hno).1]
+  rw [(pending_idx_nodup tg ps).count, if_pos hi]
+
+/-- **what is submitted carries its own gas**: every transaction handed to the bridge has, as its gas limit, exactly
+    the sum of the allowances of the proposals it carries, and together they are the pending proposals in order -/
+theorem submitted_own_gas (cap tg : Nat) (ps : List PIn) (hno : NoOverflow (pending tg ps)) :
+    (∀ b ∈ submitted (batches cap tg ps), b.gas = sumGas b.members ∧ b.members ≠ []) ∧
+    ((submitted (batches cap tg ps)).map (·.members)).flatten = pending tg ps := by
+  have hP := batches_P14 cap tg ps hno
+  refine ⟨?_, ?_⟩
+  · intro b hb
+    simp only [submitted, List.mem_filter] at hb
+    exact ⟨hP.2.1 b hb.1, by simpa using hb.2⟩
+  · rw [← hP.1]
+    unfold submitted
+    generalize batches cap tg ps = bs
+    induction bs with
+    | nil => simp
+    | cons b bs ih =>
+      simp only [List.filter_cons]
+      split
+      · simp only [List.map_cons, List.flatten_cons]; rw [ih]
+      · next h =>
+        have : b.members = [] := by simpa using h
+        simp only [List.map_cons, List.flatten_cons, this, List.nil_append]; exact ih
+
 /-- session ids of distinct batch positions are distinct -/
 theorem sessionId_inj (m : String) (i j : Nat) (h : sessionId m i = sessionId m j) : i = j := by
   unfold sessionId at h
